@@ -6,14 +6,15 @@ pid = sys.argv[1]
 summary = sys.argv[2]
 needs = sys.argv[3]
 caught_props = sys.argv[4] if len(sys.argv) > 4 else pid
-src = "/tmp/seedout-%s" % pid
-dst = "/verif/seeded/%s" % pid
+T = os.environ.get("SEEDTAG", "")
+src = "/tmp/seedout%s-%s" % (T, pid)
+dst = "/verif/seeded/%s%s" % (pid, T)
 os.makedirs(dst, exist_ok=True)
 shutil.copy(os.path.join(src, "patch.diff"), dst)
 for p in glob.glob(src + "/**/*_test.go", recursive=True):
     shutil.copy(p, os.path.join(dst, os.path.basename(p) + ".txt"))   # .txt: not compiled by accident
 shutil.copy(os.path.join(src, "README.md"), os.path.join(dst, "README.md"))
-log = open("/tmp/seedverify-%s.log" % pid).read() if os.path.exists("/tmp/seedverify-%s.log" % pid) else ""
+log = open("/tmp/seedverify%s-%s.log" % (T, pid)).read() if os.path.exists("/tmp/seedverify%s-%s.log" % (T, pid)) else ""
 sigs = sorted(set(re.findall(r"signature: (\S+)", log)))
 viol = ("VIOLATION property=" in log) or bool(sigs)
 demo_fail = "FAIL" in log.split("== demo with patch")[-1].split("== our check")[0] if "== demo with patch" in log else None
